@@ -24,24 +24,32 @@
 (***************************************************************************)
 EXTENDS Integers, Sequences, FiniteSets, TLC, Json
 CONSTANTS FixTop, AllowAlias,
+          WithErr,  \* TRUE: the reader's condition also reads F.Arr[F.I + 1], whose evaluation FAILS (index out of range) when I = 1:
+                    \* a condition that evaluated well can fail after the writer ran, and the other way round
           Ext       \* FALSE: the base patterns (the writer only assigns); TRUE: the writer's action list also calls Complete() or
                     \* Retract(itself) before the assignment and / or re-reads the reader's condition after it
 
-Paths == {"N","X","I","A0","AI"}            \* variable nodes usable in expressions
+Paths == {"N","X","I","A0","AI"}            \* variable nodes usable in expressions and as assignment targets
+RPaths == IF WithErr THEN Paths \cup {"AJ"} ELSE Paths      \* ... and in the reader's condition
 Locs  == {"N","X","I","A0","A1","Y"}         \* memory locations
 \* variable nodes syntactically contained in a path's snapshot
 VarsOf(p) == CASE p = "AI" -> {"AI","A","I","F"}
+               [] p = "AJ" -> {"AJ","A","I","F"}
                [] p = "A0" -> {"A0","A","F"}
                [] p = "N"  -> {"N"}
                [] OTHER    -> {p,"F"}
 \* locations read when the path is evaluated, given selector value i
-ReadLocs(p, i) == CASE p = "AI" -> {"I", IF i = 0 THEN "A0" ELSE "A1"} [] OTHER -> {p}
+ReadLocs(p, i) == CASE p = "AI" -> {"I", IF i = 0 THEN "A0" ELSE "A1"}
+                    [] p = "AJ" -> (IF i = 0 THEN {"I", "A1"} ELSE {"I"})
+                    [] OTHER -> {p}
+FailsAt(p, i) == p = "AJ" /\ i = 1
 \* location written when the path is assigned
 WLoc(p, i) == CASE p = "AI" -> (IF i = 0 THEN "A0" ELSE "A1") [] OTHER -> p
 
 Atom == {[k |-> "a", p |-> p] : p \in Paths}
-Conds == Atom \cup {[k |-> o, l |-> a, r |-> b] : o \in {"and","or"}, a \in Atom, b \in Atom}
-              \cup {[k |-> "not", l |-> a] : a \in Atom}
+RAtom == {[k |-> "a", p |-> p] : p \in RPaths}
+AllConds == RAtom \cup {[k |-> o, l |-> a, r |-> b] : o \in {"and","or"}, a \in RAtom, b \in RAtom}
+              \cup {[k |-> "not", l |-> a] : a \in RAtom}
 RECURSIVE Subs(_), EVars(_)
 Subs(e) == CASE e.k = "a" -> {e} [] e.k = "not" -> {e} \cup Subs(e.l) [] OTHER -> {e} \cup Subs(e.l) \cup Subs(e.r)
 EVars(e) == CASE e.k = "a" -> VarsOf(e.p) [] e.k = "not" -> EVars(e.l) [] OTHER -> EVars(e.l) \cup EVars(e.r)
@@ -52,7 +60,7 @@ Rhs == {"c","X","AI"}
 Writer == IF ~Ext THEN [w : Atom, t : Paths, rhs : Rhs, ctl : {"none"}, post : {FALSE}]
           ELSE {x \in [w : {[k |-> "a", p |-> "X"]}, t : Paths, rhs : Rhs, ctl : {"none", "complete", "retract"}, post : BOOLEAN] :
                   x.ctl # "none" \/ x.post}
-Reader == [w : Conds]
+Reader == [w : IF WithErr THEN {c \in AllConds : \E a \in Subs(c) : a.k = "a" /\ a.p = "AJ"} ELSE AllConds]
 
 VARIABLES W, R, sel, memo, dirty, bad, cyc, wRet, ended
 vars == <<W, R, sel, memo, dirty, bad, cyc, wRet, ended>>
@@ -63,20 +71,29 @@ AtomsIn == {n \in Nodes : n.k = "a"}
 
 \* memoized evaluation; tr gives the from-scratch truth of each atom now.
 \* returns [v, m, d, bad]: truth, memo', dirty', whether a dirty memo was *used*
-RECURSIVE ME(_, _, _, _, _)
-ME(e, tr, m, d, b) ==
-  IF m[e] # "u" THEN [v |-> (m[e] = "t"), m |-> m, d |-> d, b |-> b \/ d[e]]
-  ELSE CASE e.k = "a" -> [v |-> tr[e], m |-> [m EXCEPT ![e] = IF tr[e] THEN "t" ELSE "f"], d |-> [d EXCEPT ![e] = FALSE], b |-> b]
-    [] e.k = "not" -> LET L == ME(e.l, tr, m, d, b) IN
-         [v |-> ~L.v, m |-> [L.m EXCEPT ![e] = IF ~L.v THEN "t" ELSE "f"], d |-> [L.d EXCEPT ![e] = FALSE], b |-> L.b]
-    [] e.k = "and" -> LET L == ME(e.l, tr, m, d, b) IN
-         IF ~L.v THEN [v |-> FALSE, m |-> [L.m EXCEPT ![e] = "f"], d |-> [L.d EXCEPT ![e] = FALSE], b |-> L.b]
-         ELSE LET Rr == ME(e.r, tr, L.m, L.d, L.b) IN
-           [v |-> Rr.v, m |-> [Rr.m EXCEPT ![e] = IF Rr.v THEN "t" ELSE "f"], d |-> [Rr.d EXCEPT ![e] = FALSE], b |-> Rr.b]
-    [] e.k = "or" -> LET L == ME(e.l, tr, m, d, b) IN
-         IF L.v THEN [v |-> TRUE, m |-> [L.m EXCEPT ![e] = "t"], d |-> [L.d EXCEPT ![e] = FALSE], b |-> L.b]
-         ELSE LET Rr == ME(e.r, tr, L.m, L.d, L.b) IN
-           [v |-> Rr.v, m |-> [Rr.m EXCEPT ![e] = IF Rr.v THEN "t" ELSE "f"], d |-> [Rr.d EXCEPT ![e] = FALSE], b |-> Rr.b]
+RECURSIVE ME(_, _, _, _, _, _)
+\* i: the selector value now.  e (in the result): the evaluation FAILED; a failed node is not remembered, and a failure of
+\* an operand is the failure of the whole node (no short circuit past an error)
+ME(e, tr, m, d, b, i) ==
+  LET Failed(x) == [v |-> FALSE, m |-> x.m, d |-> x.d, b |-> x.b, e |-> TRUE] IN
+  IF m[e] # "u" THEN [v |-> (m[e] = "t"), m |-> m, d |-> d, b |-> b \/ d[e], e |-> FALSE]
+  ELSE CASE e.k = "a" -> IF FailsAt(e.p, i) THEN [v |-> FALSE, m |-> m, d |-> d, b |-> b, e |-> TRUE]
+                         ELSE [v |-> tr[e], m |-> [m EXCEPT ![e] = IF tr[e] THEN "t" ELSE "f"], d |-> [d EXCEPT ![e] = FALSE], b |-> b, e |-> FALSE]
+    [] e.k = "not" -> LET L == ME(e.l, tr, m, d, b, i) IN
+         IF L.e THEN Failed(L)
+         ELSE [v |-> ~L.v, m |-> [L.m EXCEPT ![e] = IF ~L.v THEN "t" ELSE "f"], d |-> [L.d EXCEPT ![e] = FALSE], b |-> L.b, e |-> FALSE]
+    [] e.k = "and" -> LET L == ME(e.l, tr, m, d, b, i) IN
+         IF L.e THEN Failed(L)
+         ELSE IF ~L.v THEN [v |-> FALSE, m |-> [L.m EXCEPT ![e] = "f"], d |-> [L.d EXCEPT ![e] = FALSE], b |-> L.b, e |-> FALSE]
+         ELSE LET Rr == ME(e.r, tr, L.m, L.d, L.b, i) IN
+           IF Rr.e THEN Failed(Rr)
+           ELSE [v |-> Rr.v, m |-> [Rr.m EXCEPT ![e] = IF Rr.v THEN "t" ELSE "f"], d |-> [Rr.d EXCEPT ![e] = FALSE], b |-> Rr.b, e |-> FALSE]
+    [] e.k = "or" -> LET L == ME(e.l, tr, m, d, b, i) IN
+         IF L.e THEN Failed(L)
+         ELSE IF L.v THEN [v |-> TRUE, m |-> [L.m EXCEPT ![e] = "t"], d |-> [L.d EXCEPT ![e] = FALSE], b |-> L.b, e |-> FALSE]
+         ELSE LET Rr == ME(e.r, tr, L.m, L.d, L.b, i) IN
+           IF Rr.e THEN Failed(Rr)
+           ELSE [v |-> Rr.v, m |-> [Rr.m EXCEPT ![e] = IF Rr.v THEN "t" ELSE "f"], d |-> [Rr.d EXCEPT ![e] = FALSE], b |-> Rr.b, e |-> FALSE]
 
 \* NB: a compound node computed from a *dirty but used* child inherits the problem; flagged at the child.
 
@@ -96,23 +113,23 @@ Init == /\ W \in Writer /\ R \in Reader /\ sel \in {0,1}
 Cycle(tr, tr2, wFirst, newSel) ==
   LET same == [v |-> FALSE, m |-> memo, d |-> dirty, b |-> FALSE]
       \* a retracted writer is not evaluated any more
-      E1 == IF wRet THEN ME(R.w, tr, memo, dirty, FALSE)
-            ELSE IF wFirst THEN ME(W.w, tr, memo, dirty, FALSE) ELSE ME(R.w, tr, memo, dirty, FALSE)
+      E1 == IF wRet THEN ME(R.w, tr, memo, dirty, FALSE, sel)
+            ELSE IF wFirst THEN ME(W.w, tr, memo, dirty, FALSE, sel) ELSE ME(R.w, tr, memo, dirty, FALSE, sel)
       E2 == IF wRet THEN E1
-            ELSE IF wFirst THEN ME(R.w, tr, E1.m, E1.d, E1.b) ELSE ME(W.w, tr, E1.m, E1.d, E1.b)
-      wCan == ~wRet /\ (IF wFirst THEN E1.v ELSE E2.v)
+            ELSE IF wFirst THEN ME(R.w, tr, E1.m, E1.d, E1.b, sel) ELSE ME(W.w, tr, E1.m, E1.d, E1.b, sel)
+      wCan == ~wRet /\ (IF wFirst THEN E1.v /\ ~E1.e ELSE E2.v /\ ~E2.e)        \* a rule whose condition failed is no candidate
   IN /\ cyc' = cyc + 1
      /\ IF wCan
         THEN \* fire writer: evaluate rhs (memoized), write target, dirty readers, reset by containment
-          LET E3 == IF W.rhs = "c" THEN E2 ELSE ME([k |-> "a", p |-> W.rhs], tr, E2.m, E2.d, E2.b)
+          LET E3 == IF W.rhs = "c" THEN E2 ELSE ME([k |-> "a", p |-> W.rhs], tr, E2.m, E2.d, E2.b, sel)
               loc == WLoc(W.t, sel)
               s2  == IF W.t = "I" THEN newSel ELSE sel
               d2  == [n \in Nodes |-> E3.d[n] \/ (E3.m[n] # "u" /\ loc \in NLocs(n, sel))]
               m2  == [n \in Nodes |-> IF ResetKey(W.t) \in EVars(n) THEN "u" ELSE E3.m[n]]
               \* the further action reads the reader's condition through the same memo; atoms that do not read the written
               \* location keep their truth
-              okTr2 == \A a \in AtomsIn : (loc \notin ReadLocs(a.p, s2) /\ (W.t # "I" \/ a.p # "AI")) => tr2[a] = tr[a]
-              E4  == IF W.post THEN ME(R.w, tr2, m2, d2, E3.b) ELSE [v |-> FALSE, m |-> m2, d |-> d2, b |-> E3.b]
+              okTr2 == \A a \in AtomsIn : (loc \notin ReadLocs(a.p, s2) /\ (W.t # "I" \/ a.p \notin {"AI", "AJ"})) => tr2[a] = tr[a]
+              E4  == IF W.post THEN ME(R.w, tr2, m2, d2, E3.b, s2) ELSE [v |-> FALSE, m |-> m2, d |-> d2, b |-> E3.b]
           IN /\ (W.post => okTr2) /\ (~W.post => tr2 = tr)
              /\ memo' = E4.m /\ dirty' = E4.d /\ sel' = s2 /\ bad' = (bad \/ E4.b)
              /\ wRet' = (wRet \/ W.ctl = "retract") /\ ended' = (W.ctl = "complete")
